@@ -61,40 +61,50 @@ class RecSHA256(SHA256):
 
 
 class RecRandomState(np.random.RandomState):
+    """RandomState that logs top-level requests (requests NumPy makes to itself while serving one,
+    e.g. choice -> randint, are not logged separately)"""
+
     def __init__(self, *a):
         super().__init__(*a)
         self.log = []
+        self._busy = False
+
+    def _top(self, fn, mk):
+        if self._busy:
+            return fn()
+        self._busy = True
+        try:
+            r = fn()
+        finally:
+            self._busy = False
+        self.log.append(mk(r))
+        return r
 
     def shuffle(self, x):
         before = list(x)
-        super().shuffle(x)
-        self.log.append(("shuffle", before, list(x)))
+        return self._top(lambda: np.random.RandomState.shuffle(self, x), lambda r: ("shuffle", before, list(x)))
 
     def randint(self, low, high=None, size=None, dtype=int):
-        r = super().randint(low, high, size, dtype)
-        self.log.append(("randint", int(low), None if high is None else int(high),
-                         None if size is None else int(np.prod(size)), [int(v) for v in np.ravel(r)], None))
-        return r
+        return self._top(lambda: np.random.RandomState.randint(self, low, high, size, dtype),
+                         lambda r: ("randint", int(low), None if high is None else int(high),
+                                    None if size is None else int(np.prod(size)), [int(v) for v in np.ravel(r)], None))
 
     def random(self, size=None):
-        r = super().random_sample(size)
-        self.log.append(("random", None if size is None else int(np.prod(size)), [float(v) for v in np.ravel(r)]))
-        return r
+        return self._top(lambda: np.random.RandomState.random_sample(self, size),
+                         lambda r: ("random", None if size is None else int(np.prod(size)), [float(v) for v in np.ravel(r)]))
 
     def random_sample(self, size=None):
         return self.random(size)
 
     def choice(self, a, size=None, replace=True, p=None):
-        r = super().choice(a, size, replace, p)
-        self.log.append(("choice", [int(v) for v in np.ravel(a)] if np.ndim(a) else int(a),
-                         [int(v) for v in np.ravel(r)]))
-        return r
+        return self._top(lambda: np.random.RandomState.choice(self, a, size, replace, p),
+                         lambda r: ("choice", [int(v) for v in np.ravel(a)] if np.ndim(a) else int(a),
+                                    [int(v) for v in np.ravel(r)]))
 
 
 def fy_offsets(u):
     """offsets c_i = int(i + U_i (n - i)) - i as cryptorandom.fykd_sample computes them"""
     n = len(u)
-    rand = np.array(u, dtype=object) if any(not isinstance(v, float) for v in u) else np.array(u)
     ind = np.array(range(n))
     JJ = np.array(ind + np.array(list(u), dtype=float) * (n - ind), dtype=int)
     return [int(JJ[i]) - i for i in range(n)]
